@@ -16,9 +16,12 @@ namespace SoyVerif.Props.C04e
 open SoyVerif SoyVerif.Model SoyVerif.Model.JsGen SoyVerif.Spec.JsSemRef SoyVerif.Spec.JsStmt
 open SoyVerif.Spec.JsSem (JsOp exact)
 open SoyVerif.Props.C04 (opOf)
-open SoyVerif.Props.C04c (toAst accAst toJsV EnvRel fn1Of fn2Of)
+open SoyVerif.Props.C04c (toAst accAst toJsV EnvRel fn1Of fn2Of Globals GlobalsAre IjRel GlobRel)
 
-variable {ent : Spec.Eval.Binds}
+set_option linter.unusedSectionVars false
+
+section Dev
+variable [Globals] {ent : Spec.Eval.Binds}
 open SoyVerif.Props.C04d
 open SoyVerif.Spec.Eval (Val Out)
 
@@ -264,7 +267,17 @@ theorem expr_no_throw (sc : Scope) (env : SEnv) (jenv : JEnv) (hrel : EnvRel ent
     simp only [toAst, Option.some.injEq] at h; subst h
     simp [eval] at hj
   | .float _ _, _, h, _ => by simp [toAst] at h
-  | .global _ _, _, h, _ => by simp [toAst] at h
+  | .global _ name, j, h, hj => by
+    unfold toAst at h
+    cases hg : assocGet? Globals.tbl name with
+    | none => simp [hg] at h
+    | some v =>
+      simp only [hg] at h
+      cases v <;> simp only [C04c.globalAst, Option.some.injEq, reduceCtorEq] at h <;> subst h <;> unfold eval at hj
+      · cases hj
+      · cases hj
+      · split at hj <;> cases hj
+      · cases hj
   | .list _ _, _, h, _ => by simp [toAst] at h
   | .map _ _, _, h, _ => by simp [toAst] at h
   | .neg _ a, j, h, hj => by
@@ -425,6 +438,26 @@ theorem expr_no_throw (sc : Scope) (env : SEnv) (jenv : JEnv) (hrel : EnvRel ent
   | .dataRef dpos key acc, j, h, hj => by
     unfold toAst at h
     split at h
+    · rename_i hkij
+      simp only [Option.map_eq_some_iff] at h
+      obtain ⟨j0, hacc, rfl⟩ := h
+      have hj0 : eval jenv j0 = .error := by
+        cases hns : anyNullSafe acc <;> simp only [hns, Bool.false_eq_true, if_false, if_true] at hj
+        · exact hj
+        · unfold eval at hj; exact hj
+      have hk : (key == Spec.Eval.sIj) = true := by simpa [C04c.sIj, Spec.Eval.sIj] using hkij
+      have hir := hrel.2.2.2.1
+      unfold IjRel at hir
+      cases hij : env.ij with
+      | none => intro v; simp [Spec.Eval.eval, hk, hij]
+      | some kvs =>
+        simp only [hij] at hir
+        obtain ⟨jk, hjk, hje⟩ := hir
+        have hspec : Spec.Eval.eval env (.dataRef dpos key acc) = Spec.Eval.evalAcc env acc (.map kvs) := by
+          simp [Spec.Eval.eval, hk, hij]
+        rw [hspec]
+        exact accAst_no_throw env jenv acc .ijData j0 (.map kvs) (.obj jk) hacc (by simp [eval, hje]) (by simp [C04c.toJsV, hjk]) hj0
+    split at h
     · cases h
     · rename_i hij
       simp only [Option.map_eq_some_iff] at h
@@ -547,7 +580,7 @@ theorem appendTo_ne_error {buf : Bytes} {jenv : JEnv} {out : Bytes} (hb : BufIs 
     · cases h
 
 section
-variable (F : Bytes → List Expr → JVal → JOut) (G : Bytes → JVal → JOut)
+variable (F : Bytes → List Expr → JVal → JOut) (G : Callee)
 
 theorem applyCalls_unspec : ∀ (ds : List Directive), applyCalls F ds .unspec = .unspec
   | [] => rfl
@@ -621,7 +654,7 @@ theorem print_ne (p : Nat) (arg : Expr) (dirs : List Directive) : CmdNe F G R ae
           rw [hjv] at hx
           rw [hx] at hgo
           intro x hxv
-          simp [hv, Spec.Eval.Out.bind, refPrint, hvj, hgo] at hxv
+          simp [hv, Spec.Eval.Out.bind, refPrint, refPrintJs, hvj, hgo] at hxv
       · exact absurd hx (appendTo_ne_error hb _)
     · cases h
   · cases h
@@ -1412,7 +1445,56 @@ theorem forc_some_ne (p : Nat) (v : Bytes) (list : Expr) (body ie : Block) (ihb 
     (ihn : BodyNe F G R ae buf body) (ihe : BlockNe F G R ae buf ie) : CmdNe F G R ae buf (.forc p v list body (some ie)) := by
   intro fuel sc r env jenv out h hs hg hrel hb hx
   unfold toCmd at h
-  have h := (loopJoin_some h).resolve_right (by intro h'; have := (rangeJoin_some h').2.1; simp at this)
+  rcases loopJoin_ie_some h with h | ⟨r0, re, hr0, hre, rfl⟩
+  case inr =>
+    -- a range loop, then `if (index == 0) {…}`
+    rw [execStmts_append] at hx
+    rcases sres_bind_error hx with hx1 | ⟨e1, hx1, hx2⟩
+    · -- the loop throws: the reference has no text for the loop, with or without an `{ifempty}`
+      have hne := range_ne F G R ae buf p v list body ihb ihn fuel sc r0 env jenv out hr0 hs hg hrel hb hx1
+      intro x hxv
+      simp only [refCmd] at hxv hne
+      obtain ⟨lv, hlv, hxv⟩ := out_bind_val hxv
+      rw [hlv] at hne
+      simp only [Spec.Eval.Out.bind] at hne
+      cases lv <;> simp only [reduceCtorEq] at hxv
+      rename_i xs
+      cases xs with
+      | nil => exact hne ([], env) (by simp)
+      | cons y ys =>
+        simp only [List.isEmpty_cons, Bool.false_eq_true, if_false] at hxv hne
+        exact hne x hxv
+    · obtain ⟨xs, text, hev, ht, hrel1, hb1, hk1, hfi⟩ := range_core F G R ae buf v list body ihb fuel sc r0 env jenv e1 out hr0 hs hg hrel hb hx1
+      obtain ⟨hv, _, args, l, c, jl, ji, rbv, pc, _, _, _, _, _, _, hrb, hr0e⟩ := rangeJoin_some hr0
+      have hst : r0.2.stack = sc.stack := by
+        rw [hr0e]
+        obtain ⟨p1, p2, _⟩ := scOk_pushForRange hs v hv
+        obtain ⟨_, b2, _⟩ := toBody_scope ae body buf _ rbv hrb p1
+        simp only [Scope.pop]; rw [b2, p2]
+      have hn : sc.n ≤ r0.2.n := by
+        rw [hr0e]
+        obtain ⟨p1, _, p3⟩ := scOk_pushForRange hs v hv
+        obtain ⟨_, _, b3⟩ := toBody_scope ae body buf _ rbv hrb p1
+        simp only [Scope.pop]; omega
+      have hs' : ScOk r0.2 := scOk_of_stack hs hst hn
+      rw [execStmts_one] at hx2
+      simp only [execStmt] at hx2
+      have hcz : eval e1 (.loopFirst (sc.pushForRange v).1.2.2.2) = .val (.bool ((xs.length : Int) == 0)) := by
+        simp [eval, localNum, hfi]
+      rw [hcz] at hx2
+      simp only [withVal] at hx2
+      cases xs with
+      | nil =>
+        simp only [List.length_nil, Int.natCast_zero, beq_self_eq_true, toBoolean, if_true] at hx2
+        simp only at ht
+        subst ht
+        have hne := ihe fuel _ re env e1 (out ++ []) hre hs' (goodBuf_of_stack hg hst hn) hrel1 hb1 hx2
+        simp only [refCmd, hev, Spec.Eval.Out.bind, List.isEmpty_nil, if_true]
+        exact out_bind_not_val hne
+      | cons y ys =>
+        have hne0 : ((((y :: ys).length : Nat) : Int) == 0) = false := by simp; omega
+        simp only [hne0, toBoolean, Bool.false_eq_true, if_false] at hx2
+        cases hx2
   obtain ⟨hv, _, j, rbv, hj, hrb, he⟩ := forcJoin_some h
   simp only at he
   obtain ⟨re, hre, rfl⟩ := he
@@ -1493,6 +1575,51 @@ theorem letContent_ne (p : Nat) (name : Bytes) (body : Block) (ih : ∀ buf', Bl
   simp only [refCmd]
   exact out_bind_not_val (ih (sc.genname name).1 fuel _ rbv env _ [] hrb hs' hg' hrel1 (find_setLocal_eq _ _ _) hx)
 
+/-! ### css, debugger -/
+
+theorem css_none_ne (p : Nat) (suffix : Bytes) : CmdNe F G R ae buf (.css p none suffix) := by
+  intro fuel sc r env jenv out h hs hg hrel hb hx
+  simp only [toCmd, Option.some.injEq] at h; subst h
+  rw [execStmts_one] at hx
+  simp only [execStmt] at hx
+  exact absurd hx (appendTo_ne_error hb _)
+
+theorem css_some_ne (p : Nat) (e : Expr) (suffix : Bytes) : CmdNe F G R ae buf (.css p (some e) suffix) := by
+  intro fuel sc r env jenv out h hs hg hrel hb hx x hx'
+  simp only [toCmd] at h
+  split at h
+  · rename_i j hj
+    simp only [Option.some.injEq] at h; subst h
+    simp only [refCmd] at hx'
+    obtain ⟨v, hv, _⟩ := out_bind_val hx'
+    simp only [execStmts] at hx
+    rcases sres_bind_error hx with hx1 | ⟨e1, hx1, hx2⟩
+    · simp only [execStmt] at hx1
+      rcases withVal_error hx1 with hve | ⟨jv, hjv, hx1⟩
+      · exact expr_no_throw sc env jenv hrel e j hj hve v hv
+      · cases hs' : toStr? jv with
+        | none => simp [hs'] at hx1
+        | some s =>
+          simp only [hs'] at hx1
+          exact appendTo_ne_error hb _ hx1
+    · simp only [execStmt] at hx1
+      obtain ⟨jv, hjv, hx1⟩ := withVal_ok hx1
+      cases hs' : toStr? jv with
+      | none => simp [hs'] at hx1
+      | some s =>
+        simp only [hs'] at hx1
+        obtain ⟨s1, _, rfl⟩ := appendTo_ok hb hx1
+        rw [execStmts_one] at hx2
+        simp only [execStmt] at hx2
+        exact appendTo_ne_error (bufIs_setBuf _ _ _) _ hx2
+  · cases h
+
+theorem debugger_ne (p : Nat) : CmdNe F G R ae buf (.debugger p) := by
+  intro fuel sc r env jenv out h hs hg hrel hb hx
+  simp only [toCmd, Option.some.injEq] at h; subst h
+  rw [execStmts_one] at hx
+  simp [execStmt] at hx
+
 /-! ### msg (no bundle) -/
 
 def PartsNe (ps : MsgParts) : Prop :=
@@ -1546,6 +1673,106 @@ theorem parts_text_ne (p : Nat) (t : Bytes) (rest : MsgParts) (ih2 : PartsNe F G
   simp only [refParts, refPh, Spec.Eval.Out.bind] at this ⊢
   exact this
 
+/-- the `{case n}` clauses of a plural: a clause that throws is a case the reference does not render -/
+def PCasesNe (cs : PluralCases) : Prop :=
+  ∀ (fuel : Nat) (sc : Scope) (r : JsPlural × Scope) (env : SEnv) (jenv : JEnv) (out : Bytes) (i : Int),
+    toPCases ae buf cs sc = some r → ScOk sc → GoodBuf sc buf → EnvRel R.entry sc env jenv → BufIs buf jenv out →
+    execPlural F G fuel r.1 i jenv = some .error → ∃ ro, refPlural F R ae cs i env = some ro ∧ ∀ x, ro ≠ .val x
+
+theorem pcases_nil_ne : PCasesNe F G R ae buf .nil := by
+  intro fuel sc r env jenv out i h hs hg hrel hb hx
+  simp only [toPCases, Option.some.injEq] at h; subst h
+  simp [execPlural] at hx
+
+theorem pcases_cons_ne (p : Nat) (v : Int) (bp : Nat) (body : MsgParts) (rest : PluralCases) (ih1 : PartsNe F G R ae buf body)
+    (ih2 : PCasesNe F G R ae buf rest) : PCasesNe F G R ae buf (.cons p v bp body rest) := by
+  intro fuel sc r env jenv out i h hs hg hrel hb hx
+  unfold toPCases at h
+  obtain ⟨rb, rr, hrb, hst, hrr, rfl⟩ := pcaseJoin_some h
+  obtain ⟨a1, _, a3⟩ := toParts_scope ae body buf sc rb hrb hs
+  simp only [execPlural] at hx
+  simp only [refPlural]
+  by_cases hex : SoyVerif.Spec.JsSem.exact v = true
+  · simp only [hex, if_true] at hx
+    by_cases hiv : (i == v) = true
+    · simp only [hiv, if_true] at hx ⊢
+      simp only [Option.some.injEq] at hx
+      exact ⟨_, rfl, ih1 fuel sc rb env jenv out hrb hs hg hrel hb hx⟩
+    · simp only [hiv, Bool.false_eq_true, if_false] at hx ⊢
+      exact ih2 fuel rb.2 rr env jenv out i hrr a1 (goodBuf_of_stack hg hst a3) (envRel_stack hrel hst) hb hx
+  · simp only [hex, Bool.false_eq_true, if_false] at hx
+    cases hx
+
+theorem parts_plural_ne (p : Nat) (vn : Bytes) (value : Expr) (cases : PluralCases) (dp : Nat) (dflt rest : MsgParts)
+    (okc : PCasesOk F G R ae buf cases) (okd : PartsOk F G R ae buf dflt)
+    (nec : PCasesNe F G R ae buf cases) (ned : PartsNe F G R ae buf dflt) (ner : PartsNe F G R ae buf rest) :
+    PartsNe F G R ae buf (.plural p vn value cases dp dflt rest) := by
+  intro fuel sc r env jenv out h hs hg hrel hb hx x hx'
+  unfold toParts at h
+  obtain ⟨j, rc, rd, rr, hj, hrc, hrd, hstd, hrr, rfl⟩ := pluralJoin_some h
+  obtain ⟨c1, c2, c3⟩ := toPCases_scope ae cases buf sc rc hrc hs
+  obtain ⟨d1, _, d3⟩ := toParts_scope ae dflt buf rc.2 rd hrd c1
+  have hgc : GoodBuf rc.2 buf := goodBuf_of_stack hg c2 c3
+  have hgd : GoodBuf rd.2 buf := goodBuf_of_stack hg hstd (Nat.le_trans c3 d3)
+  simp only [refParts] at hx'
+  obtain ⟨vv, hvv, hx'⟩ := out_bind_val hx'
+  simp only [execStmts] at hx
+  rcases sres_bind_error hx with hx1 | ⟨e1, hx1, hx2⟩
+  · -- the switch throws
+    simp only [execStmt] at hx1
+    rcases withVal_error hx1 with hve | ⟨jv, hjv, hx1⟩
+    · exact expr_no_throw sc env jenv hrel value j hj hve vv hvv
+    · obtain ⟨vv', hvv', hvj⟩ := C04c.gen_correct_refs_partial sc env jenv hrel value j jv hj hjv
+      rw [hvv] at hvv'
+      simp only [Out.val.injEq] at hvv'
+      subst hvv'
+      cases jv with
+      | num i =>
+        have := toJsV_int hvj
+        subst this
+        simp only at hx1 hx'
+        obtain ⟨r1, h1, _⟩ := out_bind_val hx'
+        cases hp : execPlural F G fuel rc.1 i jenv with
+        | some res =>
+          rw [hp] at hx1
+          simp only at hx1
+          subst hx1
+          obtain ⟨ro, hro, hne⟩ := nec fuel sc rc env jenv out i hrc hs hg hrel hb hp
+          rw [hro] at h1
+          exact hne r1 h1
+        | none =>
+          rw [hp] at hx1
+          simp only at hx1
+          have hn := (okc fuel sc rc env jenv out i hrc hs hg hrel hb).1 hp
+          rw [hn] at h1
+          simp only at h1
+          exact ned fuel rc.2 rd env jenv out hrd c1 hgc (envRel_stack hrel c2) hb hx1 r1 h1
+      | undefined => cases hx1
+      | null => cases hx1
+      | bool _ => cases hx1
+      | str _ => cases hx1
+      | arr _ => cases hx1
+      | obj _ => cases hx1
+  · -- the switch completed; the rest throws
+    have hone : execStmts F G fuel (.cons (.pluralS j rc.1 rd.1) .nil) jenv = .ok e1 := by
+      simp only [execStmts, hx1, SRes.bind]
+    have hpart : toParts ae buf (.plural p vn value cases dp dflt .nil) sc = some (.cons (.pluralS j rc.1 rd.1) .nil, rd.2) := by
+      unfold toParts
+      simp [pluralJoin, hj, hrc, hrd, hstd, toParts]
+    obtain ⟨t1, env1, ht1, hrel1, hb1, _⟩ := parts_plural_ok F G R ae buf p vn value cases dp dflt .nil okc okd
+      (parts_nil_ok F G R ae buf) fuel sc _ env jenv e1 out hpart hs hg hrel hb hone
+    simp only [refParts, hvv, Spec.Eval.Out.bind] at ht1
+    cases vv <;> simp only [reduceCtorEq] at ht1 hx'
+    rename_i i
+    obtain ⟨r1, h1, hx'⟩ := out_bind_val hx'
+    rw [h1] at ht1
+    simp only [Spec.Eval.Out.bind, List.append_nil, Out.val.injEq, Prod.mk.injEq] at ht1
+    obtain ⟨r2, h2, _⟩ := out_bind_val hx'
+    obtain ⟨e1t, e1e⟩ := ht1
+    rw [e1e] at h2
+    rw [← e1t] at hb1
+    exact ner fuel rd.2 rr env1 e1 (out ++ r1.1) hrr d1 hgd hrel1 hb1 hx2 r2 h2
+
 theorem msg_ne (p id : Nat) (m d : Bytes) (bp : Nat) (body : MsgParts) (ih : PartsNe F G R ae buf body) :
     CmdNe F G R ae buf (.msg p id m d bp body) := by
   intro fuel sc r env jenv out h hs hg hrel hb hx
@@ -1558,8 +1785,8 @@ theorem msg_ne (p id : Nat) (m d : Bytes) (bp : Nat) (body : MsgParts) (ih : Par
 
 /-- the callee oracle throws only where the reference's `call` does not render -/
 def CallRelE : Prop :=
-  ∀ (name : Bytes) (ce : Spec.Eval.CallEnv) (jd : List (Bytes × JVal)),
-    C04c.toJsKvs ce.entry = some jd → G name (.obj jd) = .error →
+  ∀ (name : Bytes) (ce : Spec.Eval.CallEnv) (jd : List (Bytes × JVal)) (jij : Option (List (Bytes × JVal))),
+    C04c.toJsKvs ce.entry = some jd → IjRel ce.ij jij → GlobRel ce.globals → G name (.obj jd) jij = .error →
     ∀ callee out, Registry.lookup R.reg name = some callee → R.call callee ce ≠ .val out
 
 /-- the params of a call: where the statements that fill the content params' buffers throw, or the `key: value`
@@ -1706,7 +1933,8 @@ theorem call_ne (hGe : CallRelE G R) (p : Nat) (name : Bytes) (allData : Bool) (
             rw [hbd] at hbd'
             simp only [Out.val.injEq] at hbd'; subst hbd'
             rcases withVal_error hx2 with hge | ⟨rv, _, hx2⟩
-            · exact hGe name ⟨bs ++ bd, env.ij, env.globals⟩ (extra ++ bkvs) (toJsKvs_append _ _ _ _ hjb hbj) hge callee outc hlk hc
+            · exact hGe name ⟨bs ++ bd, env.ij, env.globals⟩ (extra ++ bkvs) jenvF.ijData (toJsKvs_append _ _ _ _ hjb hbj)
+                hrelF.2.2.2.1 hrelF.2.2.2.2 hge callee outc hlk hc
             · exact appendTo_ne_error hbF rv hx2
         | undefined => cases hx2
         | null => cases hx2
@@ -1730,8 +1958,9 @@ mutual
       forc_some_ne F G R ae buf p v list body ie (body_ok' F G R ae hG body buf) (body_ne' body buf) (block_ne' ie buf)
     | .letContent p name body, buf => letContent_ne F G R ae buf p name body (fun b' => block_ne' body b')
     | .msg p id m d bp body, buf => msg_ne F G R ae buf p id m d bp body (parts_ne body buf)
-    | .css .., _ => fun _ _ _ _ _ _ h => by simp [toCmd] at h
-    | .debugger .., _ => fun _ _ _ _ _ _ h => by simp [toCmd] at h
+    | .css p none suffix, buf => css_none_ne F G R ae buf p suffix
+    | .css p (some e) suffix, buf => css_some_ne F G R ae buf p e suffix
+    | .debugger p, buf => debugger_ne F G R ae buf p
     | .log .., _ => fun _ _ _ _ _ _ h => by simp [toCmd] at h
     | .call p name allData data params, buf =>
       call_ne F G R ae buf hGe p name allData data params (params_ok F G R ae hG params) (params_ne params)
@@ -1744,7 +1973,12 @@ mutual
     | .text p t rest, buf => parts_text_ne F G R ae buf p t rest (parts_ne rest buf)
     | .ph p name body rest, buf =>
       parts_ph_ne F G R ae buf p name body rest (ph_ok F G R ae hG body buf) (ph_ne body buf) (parts_ne rest buf)
-    | .plural .., _ => fun _ _ _ _ _ _ h => by simp [toParts] at h
+    | .plural p vn value cases dp dflt rest, buf =>
+      parts_plural_ne F G R ae buf p vn value cases dp dflt rest (pcases_ok F G R ae hG cases buf) (parts_ok F G R ae hG dflt buf)
+        (pcases_ne cases buf) (parts_ne dflt buf) (parts_ne rest buf)
+  theorem pcases_ne : ∀ (cs : PluralCases) (buf : Bytes), PCasesNe F G R ae buf cs
+    | .nil, buf => pcases_nil_ne F G R ae buf
+    | .cons p v bp body rest, buf => pcases_cons_ne F G R ae buf p v bp body rest (parts_ne body buf) (pcases_ne rest buf)
   theorem ph_ne : ∀ (b : MsgPhBody) (buf : Bytes), PhNe F G R ae buf b
     | .htmlTag p t, buf => ph_tag_ne F G R ae buf p t
     | .cmd c, buf => ph_cmd_ne F G R ae buf c (cmd_ne c buf)
@@ -1827,10 +2061,10 @@ def refCall : Nat → Registry.Tmpl → Spec.Eval.CallEnv → Out Bytes
       { vars := ce.entry, loops := [], ij := ce.ij, globals := ce.globals }
 
 /-- what the body of a generated function computes from the data object `kvs`, given the functions it may call -/
-def genBody (G : Bytes → JVal → JOut) (t : Registry.Tmpl) (kvs : List (Bytes × JVal)) : JOut :=
+def genBody (G : Callee) (t : Registry.Tmpl) (kvs : List (Bytes × JVal)) (ij : Option (List (Bytes × JVal))) : JOut :=
   match toCmds (tmplAe t) b!"output" (blockCmds t.body) ⟨[[]], 0⟩ with
   | some r =>
-    (match execStmts F G fuel r.1 ⟨kvs, none, [(b!"output", .str [])]⟩ with
+    (match execStmts F G fuel r.1 ⟨kvs, ij, [(b!"output", .str [])]⟩ with
       | .ok e =>
         (match e.locals.find? (·.1 == b!"output") with
           | some (_, .str out) => .val (.str out)
@@ -1840,13 +2074,13 @@ def genBody (G : Bytes → JVal → JOut) (t : Registry.Tmpl) (kvs : List (Bytes
   | none => .unspec
 
 /-- the generated functions, by depth -/
-def genCall : Nat → Bytes → JVal → JOut
-  | 0, _, _ => .unspec
-  | d + 1, name, data =>
+def genCall : Nat → Callee
+  | 0, _, _, _ => .unspec
+  | d + 1, name, data, ij =>
     match data with
     | .obj kvs =>
       (match Registry.lookup reg name with
-        | some t => genBody F fuel (genCall d) t kvs
+        | some t => genBody F fuel (genCall d) t kvs ij
         | none => .unspec)
     | _ => .unspec
 
@@ -1861,11 +2095,11 @@ theorem scOk_fresh (n : Nat) : ScOk ⟨[[]], n⟩ := by
     for the generated functions themselves -/
 theorem calls_correct : ∀ (d : Nat) (e : Spec.Eval.Binds),
     CallRel (genCall F reg fuel d) ⟨reg, e, refCall F reg d⟩ ∧ CallRelE (genCall F reg fuel d) ⟨reg, e, refCall F reg d⟩
-  | 0, e => ⟨fun _ _ _ _ _ h => by simp [genCall] at h, fun _ _ _ _ h => by simp [genCall] at h⟩
+  | 0, e => ⟨fun _ _ _ _ _ _ _ _ h => by simp [genCall] at h, fun _ _ _ _ _ _ _ h => by simp [genCall] at h⟩
   | d + 1, e => by
     have ih := calls_correct d
     refine ⟨?_, ?_⟩
-    · intro name ce jd r hj hg
+    · intro name ce jd jij r hj hij hgl hg
       simp only [genCall] at hg
       cases hl : Registry.lookup reg name with
       | none => simp [hl] at hg
@@ -1877,7 +2111,7 @@ theorem calls_correct : ∀ (d : Nat) (e : Spec.Eval.Binds),
           · rename_i jenv' hx
             have hbody := gen_correct_body_partial F (genCall F reg fuel d) ⟨reg, ce.entry, refCall F reg d⟩ (tmplAe t)
               (ih ce.entry).1 (blockCmds t.body) 0 rr hrr
-              { vars := ce.entry, loops := [], ij := ce.ij, globals := ce.globals } jd none rfl hj jenv' fuel hx
+              { vars := ce.entry, loops := [], ij := ce.ij, globals := ce.globals } jd jij rfl hj hij hgl jenv' fuel hx
             obtain ⟨text, ht, hb⟩ := hbody
             unfold BufIs at hb
             rw [hb] at hg
@@ -1886,7 +2120,7 @@ theorem calls_correct : ∀ (d : Nat) (e : Spec.Eval.Binds),
           · cases hg
           · cases hg
         · cases hg
-    · intro name ce jd hj hg callee out hlk
+    · intro name ce jd jij hj hij hgl hg callee out hlk
       simp only [Registry.lookup] at hlk
       simp only [genCall, Registry.lookup, hlk, genBody] at hg
       split at hg
@@ -1896,9 +2130,9 @@ theorem calls_correct : ∀ (d : Nat) (e : Spec.Eval.Binds),
         · rename_i hx
           intro hc
           have hrel : EnvRel ce.entry ⟨[[]], 0⟩ { vars := ce.entry, loops := [], ij := ce.ij, globals := ce.globals }
-              ⟨jd, none, [(b!"output", .str [])]⟩ :=
+              ⟨jd, jij, [(b!"output", .str [])]⟩ :=
             C04c.envRel_params _ { vars := ce.entry, loops := [], ij := ce.ij, globals := ce.globals } _
-              (fun k => by simp [Scope.lookup, Scope.lookupIn, frameGet?]) hj
+              (fun k => by simp [Scope.lookup, Scope.lookupIn, frameGet?]) hj hij hgl
           exact gen_no_throw_cmds_partial F (genCall F reg fuel d) ⟨reg, ce.entry, refCall F reg d⟩ (tmplAe callee) b!"output"
             (ih ce.entry).1 (ih ce.entry).2 (blockCmds callee.body) ⟨[[]], 0⟩ rr hrr _ _ [] (scOk_fresh 0)
             (goodBuf_plain 0 _ (by decide)) hrel (by simp [BufIs]) out hc fuel hx
@@ -1911,23 +2145,25 @@ theorem calls_correct : ∀ (d : Nat) (e : Spec.Eval.Binds),
     Spec/Eval.renderTmpl).  No hypothesis about the callees is left: `calls_correct` supplies it. -/
 theorem gen_correct_program_partial (ae : Autoescape) (d : Nat) (body : CmdList) (n : Nat) (r : JsStmts × Scope)
     (h : toCmds ae b!"output" body ⟨[[]], n⟩ = some r) (env : SEnv) (optData : List (Bytes × JVal))
-    (ij : Option (List (Bytes × JVal))) (hdata : C04c.toJsKvs env.vars = some optData) (jenv' : JEnv) (fuel' : Nat)
+    (ij : Option (List (Bytes × JVal))) (hdata : C04c.toJsKvs env.vars = some optData) (hij : IjRel env.ij ij)
+    (hgl : GlobRel env.globals) (jenv' : JEnv) (fuel' : Nat)
     (hx : execStmts F (genCall F reg fuel d) fuel' r.1 ⟨optData, ij, [(b!"output", .str [])]⟩ = .ok jenv') :
     ∃ text, refCmds F ⟨reg, env.vars, refCall F reg d⟩ ae body env = .val text ∧ BufIs b!"output" jenv' text :=
   gen_correct_body_partial F (genCall F reg fuel d) ⟨reg, env.vars, refCall F reg d⟩ ae (calls_correct F reg fuel d env.vars).1
-    body n r h env optData ij rfl hdata jenv' fuel' hx
+    body n r h env optData ij rfl hdata hij hgl jenv' fuel' hx
 
 /-- … and the converse: where the reference renders, the statements complete with that text or leave the common
     subset; no callee throws -/
 theorem gen_complete_program_partial (ae : Autoescape) (d : Nat) (body : CmdList) (r : JsStmts × Scope)
     (h : toCmds ae b!"output" body ⟨[[]], 0⟩ = some r) (env : SEnv) (optData : List (Bytes × JVal))
-    (ij : Option (List (Bytes × JVal))) (hdata : C04c.toJsKvs env.vars = some optData) (fuel' : Nat) (t : Bytes)
+    (ij : Option (List (Bytes × JVal))) (hdata : C04c.toJsKvs env.vars = some optData) (hij : IjRel env.ij ij)
+    (hgl : GlobRel env.globals) (fuel' : Nat) (t : Bytes)
     (ht : refCmds F ⟨reg, env.vars, refCall F reg d⟩ ae body env = .val t) :
     (∃ jenv', execStmts F (genCall F reg fuel d) fuel' r.1 ⟨optData, ij, [(b!"output", .str [])]⟩ = .ok jenv' ∧
       BufIs b!"output" jenv' t) ∨
     execStmts F (genCall F reg fuel d) fuel' r.1 ⟨optData, ij, [(b!"output", .str [])]⟩ = .unspec := by
   have hrel : EnvRel env.vars ⟨[[]], 0⟩ env ⟨optData, ij, [(b!"output", .str [])]⟩ :=
-    C04c.envRel_params _ env _ (fun k => by simp [Scope.lookup, Scope.lookupIn, frameGet?]) hdata
+    C04c.envRel_params _ env _ (fun k => by simp [Scope.lookup, Scope.lookupIn, frameGet?]) hdata hij hgl
   have := gen_complete_cmds_partial F (genCall F reg fuel d) ⟨reg, env.vars, refCall F reg d⟩ ae b!"output"
     (calls_correct F reg fuel d env.vars).1 (calls_correct F reg fuel d env.vars).2 body ⟨[[]], 0⟩ r h env _ [] (scOk_fresh 0)
     (goodBuf_plain 0 _ (by decide)) hrel (by simp [BufIs]) t ht fuel'
@@ -1935,7 +2171,15 @@ theorem gen_complete_program_partial (ae : Autoescape) (d : Nat) (body : CmdList
 
 end
 
+end Dev
+
 /-! ## non-vacuity -/
+
+section Examples
+open SoyVerif.Spec.Eval (Val Out)
+open SoyVerif.Props.C04d
+local instance : Globals := exGlobals
+
 
 /-- `A{$m.q.z}B` -/
 def throwCmds : CmdList :=
@@ -1982,7 +2226,7 @@ example (a : Int) (ha : SoyVerif.Spec.JsSem.exact a = true) (jenv' : JEnv) (r : 
     ∃ text, refCmds sampleF ⟨[calleeT], (sampleEnv a).vars, refCall sampleF [calleeT] 2⟩ .on sampleCall (sampleEnv a) = .val text ∧
       BufIs b!"output" jenv' text :=
   gen_correct_program_partial sampleF [calleeT] 10 .on 2 sampleCall 0 r h (sampleEnv a) _ none
-    (by simp [sampleEnv, C04c.toJsKvs, C04c.toJsV, ha]) jenv' 10 hx
+    (by simp [sampleEnv, C04c.toJsKvs, C04c.toJsV, ha]) rfl (exGlobRel _) jenv' 10 hx
 
 -- depth 0 allows no call: the semantics says nothing (`unspec`), and so does the reference
 example : (match toCmds .on b!"output" sampleCall ⟨[[]], 0⟩ with
@@ -1990,5 +2234,7 @@ example : (match toCmds .on b!"output" sampleCall ⟨[[]], 0⟩ with
       | .unspec => true
       | _ => false)
     | none => false) = true := rfl
+
+end Examples
 
 end SoyVerif.Props.C04e
